@@ -14,6 +14,34 @@ CHECKS = {
         "independent response tokenizer. Single session, default schedule. Effects of COPY/MOVE/EXPUNGE observed on the MH folder on disk.",
    ref="DESIGN.md section 4 C15"),
 }
+H_NOTE = ("Trusted: the virtual event loop and seams (vf/simloop.py, vf/seams.py), the reference store (vf/refmodel/store.py), the stream monitor "
+          "(vf/hdriver.py) and the independent response tokenizer (vf/respparse.py). Commands are strictly sequential (default schedule); "
+          "schedules are explored separately by the S engine. Depth-bounded: histories longer than the bound are not covered.")
+def H(pid, text, tech="explicit-state BFS over operation histories of the real server, reference-model and stream-replay oracles"):
+    return dict(cat="model_checking", engine="H-history-bfs", tech=tech, text=text, note=H_NOTE, ref=f"DESIGN.md section 4 {pid}")
+CHECKS.update({
+ "C01": H("C01", "All command histories up to the stated depth over a 2-session alphabet (SELECT/EXAMINE, APPEND, STORE, EXPUNGE, UID EXPUNGE, COPY, MOVE, CLOSE, "
+          "IDLE/DONE, NOOP, CHECK, probes, external delivery, idle time) are executed on the real server; every untagged EXISTS/EXPUNGE/FETCH each session "
+          "is sent is replayed into a per-session view and checked for legality, binding (sequence number <-> UID) and flush equality with the reference store. "
+          "Exhaustive within depth and alphabet, which is what a property over all histories admits."),
+ "C02": H("C02", "All histories up to the depth bound over append/copy/move/expunge/delivery/pack/restart/create/delete/rename; a ledger of every (mailbox, "
+          "UIDVALIDITY, UID) -> content ever revealed must remain a function, UIDs ascend, every announced UIDNEXT exceeds every assigned UID and never "
+          "decreases, APPENDUID/COPYUID are fetched back, UIDVALIDITY is constant per incarnation and larger after DELETE+CREATE."),
+ "C03": H("C03", "All histories up to the depth bound mixing expunge of subsets, appends, copies, deliveries, pack, rename and restart with a second session "
+          "probing every position by sequence number and by UID: content id and INTERNALDATE per (mailbox, UIDVALIDITY, UID) never change and sequence "
+          "number <-> UID <-> content stays a bijection at every command boundary."),
+ "C04": H("C04", "Every history of length <=2 (thorough: also length 3 over a narrower alphabet) over a wide STORE/FETCH/APPEND/COPY/SEARCH alphabet with "
+          "system flags and keywords, from two sessions and several initial flag assignments; every FLAGS value sent, the per-session flag knowledge at "
+          "synchronisation points, the final FETCH FLAGS and the Seen/unseen complement are compared with the reference model."),
+ "C13": H("C13", "All histories up to the depth bound in which an external MH delivery agent (plain os calls) drops seen/unseen messages, singly and in batches, "
+          "between IMAP commands of selected, idling and unselected sessions; IMAP side: announced at the next sync point as new last messages with fresh UIDs "
+          "and the agent's flags; MH side: .mh_sequences parsed by stdlib mailbox.MH mentions no removed message and equals the IMAP flags."),
+ "C05": dict(cat="exploration", engine="E-input-enumeration", tech="bounded exhaustive input enumeration against a reference model, plus a small history BFS",
+   text="Every cell of (N<=3/4, every \\Deleted subset, read-write/EXAMINE, EXPUNGE/UID EXPUNGE/CLOSE/MOVE/COPY/COPY-to-self/APPEND, 7 set shapes incl. duplicates and "
+        "non-existent UIDs) is executed from a freshly prepared state and the whole observable store (content ids, flags, dates per mailbox) is compared with the model; "
+        "a refused command must leave the folder tree and database rows byte-identical. A depth-3/4 BFS composes such commands from two sessions.",
+   note=H_NOTE, ref="DESIGN.md section 4 C05"),
+})
 NOT_YET = {}
 
 def main():
